@@ -87,6 +87,24 @@ def gen_cases(tier, seed):
             else:
                 t["h"] = 0.35 * dev["film"]["h"]
         cases.append({"device": dev, "post": post, "seed": int(rng.integers(1 << 30)), "cost": {"small": 5, "medium": 15, "large": 60}[size]})
+    for j in range(2 if tier == "quick" else 8):
+        # a film with a sharp reflex notch (a thin wedge cut into one side of a box): the site at the tip of the wedge sees the
+        # domain on more than half a turn; wherever the premise holds (locally Delaunay, unencroached boundary edges) its cell is
+        # still its clipped Voronoi region
+        dev = zoo.gen_device(rng, n_terminals=0, n_holes=0, probes=0, size="small", film_kind="box", smooth=0, xi=float(rng.choice([0.5, 1.0])))
+        Wn, Hn = dev["film"]["w"], dev["film"]["h"]
+        wn = float([0.03, 0.12, 0.06, 0.2][j % 4]) * Wn   # width of the wedge at the edge
+        dn = float([0.55, 0.4, 0.7, 0.3][j % 4]) * Hn     # its depth
+        x0 = float(rng.uniform(-0.2, 0.2)) * Wn
+        ring = [[-Wn / 2, -Hn / 2], [Wn / 2, -Hn / 2], [Wn / 2, Hn / 2], [x0 + wn / 2, Hn / 2], [x0, Hn / 2 - dn], [x0 - wn / 2, Hn / 2], [-Wn / 2, Hn / 2]]
+        step = float(dev["mesh"].get("max_edge_length") or 0.1 * Wn)
+        xy = []
+        for (xa, ya), (xb, yb) in zip(ring, ring[1:] + ring[:1]):
+            nseg = max(1, int(round(np.hypot(xb - xa, yb - ya) / step)))
+            for q in range(nseg):
+                xy.append([xa + (xb - xa) * q / nseg, ya + (yb - ya) * q / nseg])
+        dev["film"] = {"kind": "points", "xy": xy}
+        cases.append({"device": dev, "post": None, "notch": True, "seed": int(rng.integers(1 << 30)), "cost": 6})
     for j in range(1 if tier == "quick" else 4):
         # a sub-micron device stated in METRES (coordinates ~1e-7), moved in place by a few nanometres (numbers ~1e-9)
         dev = zoo.gen_device(rng, n_terminals=int([2, 0][j % 2]), n_holes=int(j % 2), probes=0, size="small", smooth=0)
@@ -239,6 +257,14 @@ def check_mesh(cx, dev, where):
     from scipy.spatial import cKDTree
 
     tree = cKDTree(sites)
+    # encroachment proper: ANY site strictly inside the diametral circle of a boundary edge encroaches it - also one that sits across
+    # a thin notch (outside the domain in between), which the opposite-angle test of the adjacent triangle cannot see
+    for k in np.flatnonzero(~interior):
+        i_, j_ = (int(v) for v in edges[k])
+        mid_ = 0.5 * (sites[i_] + sites[j_])
+        rad_ = 0.5 * float(np.linalg.norm(sites[i_] - sites[j_]))
+        if any(q not in (i_, j_) for q in tree.query_ball_point(mid_, rad_ * (1 - 1e-9))):
+            bad_edge[k] = True
     bb = (sites[:, 0].min() - scale, sites[:, 1].min() - scale, sites[:, 0].max() + scale, sites[:, 1].max() + scale)
     areas = np.asarray(mesh.areas)
     dual = np.asarray(em.dual_edge_lengths)
